@@ -101,6 +101,11 @@ def signature(viol, sc):
 def run(pid, tier, seed, replay=None):
     t0 = time.time()
     build_harness()
+    if replay is not None and json.load(open(replay)).get("engine") == "commwin":
+        from . import c_commwin
+        findings = [f for f in load_findings() if f["property"] == pid and f["status"] == "known"]
+        _, wnew, wknown, _, _ = c_commwin.run(pid, tier, seed, findings, PREFIX[pid], json.load(open(replay))["scenario"])
+        return finish(pid, wnew, sorted(wknown))
     wd = workdir("comm_" + pid)
     mc = []
     if replay is None:
@@ -191,6 +196,17 @@ def run(pid, tier, seed, replay=None):
             continue
         seen.add(key)
         uniq.append((what, path))
+    # the second implementation: the thread-based communicator on the real kernel
+    win = {}
+    if replay is None:
+        from . import c_commwin
+        wmc, wnew, wknown, wothers, win = c_commwin.run(pid, tier, seed, findings, PREFIX[pid])
+        mc += wmc
+        uniq += wnew
+        known_hits |= wknown
+        for kk, vv in wothers.items():
+            others[kk] = others.get(kk, 0) + vv
+        tv_states += win.get("trace_validation_states", 0)
     samples = []
     for bid in list(blk)[:2]:
         samples.append({"exchange": bid, "scenario": by_id.get(bid.split("#")[0]),
@@ -198,9 +214,9 @@ def run(pid, tier, seed, replay=None):
     cov = {
         "states": sum(m["distinct"] for m in mc) + tv_states,
         "transitions": sum(m["states"] for m in mc) + tv_states,
-        "traces_validated_against_impl": len(results),
+        "traces_validated_against_impl": len(results) + win.get("exchanges", 0),
         "samples": samples,
-        "evaluations": len(results),
+        "evaluations": len(results) + win.get("exchanges", 0),
         "distinct_nontrivial": len(nontrivial),
         "rule": "one evaluation = one exchange of the real Communicator over the simulated kernel along one "
                 "schedule, validated by TLC against CommTrace.tla; non-trivial = the library had to wait "
@@ -212,6 +228,7 @@ def run(pid, tier, seed, replay=None):
         "skipped_unrepresentable": unrep,
         "monitors_of_other_properties_fired": others,
         "replay_note": note,
+        "thread_based_communicator": win,
         "tlc_generated_behaviours_replayed": sum(1 for s in scs if "events" in s),
         "refinement": {"behaviours_replayed": same + len(drift), "same_system_call_sequence_as_model": same,
                        "drift_examples": drift[:3]},
